@@ -1,10 +1,10 @@
-(* Properties/C20.v — C20: concurrent readers see a complete best block; finalized never goes backwards (see the note);
+(* Properties/C20.v — C20: concurrent readers see a complete best block; finalized never goes backwards;
    read-only operations never write. The importer is a list of steps (atomic store writes, publication of the in-memory
    best / finalized pointers); reader steps leave the state unchanged (queries_are_pure), so every interleaving of readers
    with the importer is a prefix of the importer's steps followed by an observation. *)
 From Coq Require Import List NArith Bool.
 From Verif Require Import Crash.Model Crash.ProofsStore Crash.ProofsInv Crash.ProofsImport Crash.ProofsCrash
-  Crash.ProofsReaders Crash.Examples.
+  Crash.ProofsReaders Crash.ProofsEqv Crash.ProofsShape Crash.ProofsResumeAll Crash.ProofsFinalized Crash.Examples Crash.ProofsResume.
 Import ListNotations.
 Open Scope N_scope.
 
@@ -27,13 +27,28 @@ Theorem queries_are_pure c y q :
   writes_of_steps (fst (query_steps c y q)) = [] /\ do_steps y (fst (query_steps c y q)) = y.
 Proof. exact (ProofsReaders.queries_are_pure c y q). Qed.
 
-(* successive finalized observations are ancestor-ordered: stated, not yet proved in the model (checked on the real
-   engine by every reader at every write boundary and by the free-running readers) *)
-Definition finalized_observations_monotone_statement : Prop :=
-  forall c s0 hist k f0, wf_cfg c -> Inv c s0 -> wf_hist c s0 hist -> finalized c s0 = f0 ->
-  let y1 := do_steps (mkSys s0 f0 f0) (firstn k (steps_of c s0 hist)) in
-  let y2 := do_steps (mkSys s0 f0 f0) (firstn (S k) (steps_of c s0 hist)) in
+(* successive finalized observations are ancestor-ordered: for every history and any two points k1 <= k2 of any interleaving,
+   the finalized block a reader observes at the later point is the earlier one or a descendant of it (resolved in the store
+   of the later point) *)
+Theorem finalized_observations_monotone c s0 hist b0 k1 k2 :
+  wf_cfg c -> Inv c s0 -> wf_hist c s0 hist -> (k1 <= k2)%nat ->
+  let y0 := mkSys s0 b0 (finalized c s0) in
+  let y1 := do_steps y0 (firstn k1 (steps_of c s0 hist)) in
+  let y2 := do_steps y0 (firstn k2 (steps_of c s0 hist)) in
   anc (y_store y2) (y_fin y2) (num_of (y_fin y1)) = Some (y_fin y1).
+Proof. exact (ProofsFinalized.finalized_observations_monotone c s0 hist b0 k1 k2). Qed.
+
+(* the stored finalized record after any number of further imports names the old finalized block or a descendant *)
+Theorem finalized_monotone c s0 l1 l2 : wf_cfg c -> Inv c s0 -> wf_hist c s0 (l1 ++ l2) ->
+  let s1 := run c s0 l1 in let s2 := run c s0 (l1 ++ l2) in
+  anc s2 (finalized c s2) (num_of (finalized c s1)) = Some (finalized c s1).
+Proof. exact (ProofsFinalized.finalized_monotone c s0 l1 l2). Qed.
+
+(* non-vacuity of the monotonicity: in the example the finalized block does move (genesis -> block 2 -> block 4) *)
+Example finalized_moves_in_example :
+  finalized ex_cfg ex_s0 = bid 0 7 /\ finalized ex_cfg (run ex_cfg ex_s0 (firstn 5 ex_hist)) = bid 2 2 /\
+  finalized ex_cfg (run ex_cfg ex_s0 ex_hist) = bid 4 4.
+Proof. exact ex_finalized_moves. Qed.
 
 Example hypotheses_met : wf_cfg ex_cfg /\ Inv ex_cfg ex_s0 /\ wf_hist ex_cfg ex_s0 ex_hist /\ stored ex_s0 (c_g ex_cfg) = true.
 Proof. exact (conj ex_wf_cfg (conj ex_inv0 (conj ex_wf_hist eq_refl))). Qed.
@@ -41,4 +56,7 @@ Proof. exact (conj ex_wf_cfg (conj ex_inv0 (conj ex_wf_hist eq_refl))). Qed.
 Print Assumptions visible_implies_complete.
 Print Assumptions import_steps_are_good.
 Print Assumptions queries_are_pure.
+Print Assumptions finalized_observations_monotone.
+Print Assumptions finalized_monotone.
+Print Assumptions finalized_moves_in_example.
 Print Assumptions hypotheses_met.
